@@ -985,7 +985,7 @@ def run(ctx, scale=1.0):
     ctx.extra['exhaustive_small_scope'] = {'cases': len(ex), 'what': '3 creator styles x 4 trigger states x 6 selection '
                                            'shapes x {serial, thread-2}'}
     rng = ctx.rng
-    n_rand = int((700 if quick else 9000) * ctx.boost * scale)
+    n_rand = int((2400 if quick else 20000) * ctx.boost * scale)
     n_proc = int((6 if quick else 60) * min(ctx.boost, 2) * scale)
     gen = [(rng.randrange(1 << 60), None, None) for _ in range(n_rand)]
     size = 25 if quick else 60
